@@ -13,7 +13,7 @@ use std::time::{Duration, Instant};
 pub struct C15;
 
 pub const FAULT_KINDS: &[&str] = &[
-    "error-len-0", "error-len-1", "error-len-5", "error-len-6", "error-len-7", "error-len-8", "error-len-40", "unknown", "empty-line", "truncated-then-exit", "exit-silently", "exit-nonzero-with-stderr", "garbage",
+    "error-len-0", "error-len-1", "error-len-5", "error-len-6", "error-len-7", "error-len-8", "error-len-40", "error-bar", "unknown", "empty-line", "truncated-then-exit", "exit-silently", "exit-nonzero-with-stderr", "garbage",
     "extra-paren",
 ];
 
@@ -571,7 +571,7 @@ impl Check for C15 {
         for n in points {
             for kind in FAULT_KINDS {
                 // (a run on a shipped design takes seconds: four representative kinds in the quick tier)
-                if job == "bmc-corpus" && sh.tier == Tier::Quick && !["error-len-40", "unknown", "truncated-then-exit", "exit-silently"].contains(kind) {
+                if job == "bmc-corpus" && sh.tier == Tier::Quick && !["error-len-40", "error-bar", "unknown", "truncated-then-exit", "exit-silently"].contains(kind) {
                     continue;
                 }
                 let o = run_child(sh, &spec, Some((kind, n)), &counter, budget);
@@ -603,6 +603,9 @@ impl Check for C15 {
                     }
                     "unknown" => {}
                     "error" => {
+                        if *kind == "error-bar" && !o.text.contains("unexpected character '|' (in a term)") {
+                            sh.violation(format!("C15|message-mangled|{kind}"), format!("{ctxt}: the solver's message does not arrive intact: {:?}", o.text), json!({"spec": spec, "fault": kind, "at": n}));
+                        }
                         if let Some(len) = kind.strip_prefix("error-len-") {
                             let len: usize = len.parse().unwrap();
                             let msg: String = FAULT_MESSAGE.chars().take(len).collect();
